@@ -172,11 +172,15 @@ for k, v in ROUND4.items():
 
 # round-5 additions
 ROUND5 = {
+    "C04": " Every node is compared with the primary (not only the first that differs); a node on which no client touched the key must equal the primary when every operation was followed by quiescence.",
+    "C05": " A quarter of the workers each run with NUN_MAX_OP_LOG_SIZE 2500 / 10000: the primary's log rotates while a node is away.",
+    "C08": " A user exists in one world only; the low session tries to log in as either with a wrong token (a failed login must not tell which exists).",
+    "C12": " Two more log sizes (1030, 3330) whose rotation threshold is not a multiple of the 25-byte record.",
     "C06": " Half of the racing histories contain the motif write k / incremental snapshot released / remove k / write k again (the commands racing with the snapshot thread bring the key back to the version and state it copied, with another value).",
     "C09": " Command SetKeyWithLineFeed: a permitted write whose *key* carries a line feed followed by a command word (`set ka\\ncreate-db tok`): the set of databases of every node must be unchanged.",
-    "C10": " In a quarter of the cases the attacker's session works on an arbiter database of its own with a registered arbiter and a conflict already pending on `k` (the conflict-queue paths, e.g. version + queue length).",
-    "C14": " In half of the fail-over clusters a client writes on the youngest node 1 ms to (election timeout + 400 ms) after the primary was killed, inside the election window: that node may drop or forward the operation but must not send it to more than one node.",
-    "C16": " One history in five with two or more databases begins with the motif: the first snapshot of a database dies after 1-12 disk calls, in the next life another database is created first, then the same name again, both are snapshotted, restart.",
+    "C10": " In a quarter of the cases the attacker's session works on an arbiter database of its own with a registered arbiter and a conflict already pending on `k` (the conflict-queue paths, e.g. version + queue length); envelopes may nest behind a carriage return; after every line a user-token session exercises the attacker's database, and lines give that user's permission list / token values no set-permissions writes; the companion creates a database at the instant the attacker's session ends.",
+    "C14": " In half of the fail-over clusters a client writes on the youngest node 1 ms to (election timeout + 400 ms) after the primary was killed, inside the election window: that node may drop or forward the operation but must not send it to more than one node. One program in eight ends with two resolved conflicts and a new arbiter registering (one client operation).",
+    "C16": " One history in five with two or more databases begins with the motif: the first snapshot of a database dies after 1-12 disk calls, in the next life another database is created first, then the same name again, both are snapshotted, a write, restart. Records written for a database after it completed a snapshot must keep decoding (shape persisted-database-*, apart from the recorded never-snapshotted class); the id table the oplog reader uses must map every database's id to that database.",
 }
 for k, v in ROUND5.items():
     CLAIMED[k]["text"] = CLAIMED[k]["text"] + v
